@@ -162,6 +162,8 @@ func tolerantOp(line []byte) bool {
 	switch ev.Op {
 	case "SetFloat", "SetFloat64", "Float", "Ctx.NewFloat", "Ctx.NewFloat64":
 		return true
+	case "SetBitsExp", "SetBitsExpSelf":
+		return true // a precision-0 receiver gets as many digits as the slice has words x digits per word
 	case "Parse", "SetString", "UnmarshalText", "UnmarshalJSON", "ParseDecimal", "Scan", "Ctx.NewString", "Ctx.ParseDecimal":
 		return strings.ContainsAny(ev.S, "pPxXbBoO") || ev.Base == 2 || ev.Base == 8 || ev.Base == 16
 	}
@@ -182,8 +184,11 @@ func abstractEvent(line []byte, dw int) string {
 			objs = append(objs, o)
 		}
 	}
-	if ret, ok := ev["ret"].(map[string]any); ok && ret["words"] != nil { // BitsExp
-		objs = append(objs, ret)
+	if ret, ok := ev["ret"].(map[string]any); ok {
+		if ret["words"] != nil { // BitsExp
+			objs = append(objs, ret)
+		}
+		delete(ret, "hex") // gob payloads are made of machine words
 	}
 	{
 		for _, o := range objs {
